@@ -39,7 +39,9 @@ class Check:
         self.seed = seed
         self.level = level
         self.t0 = time.time()
-        self.work = os.path.join(ROOT, '.work', pid)
+        # runs against another tree (seeded changes) or another tier must not share scratch space with the registered run
+        tag = pid + ('' if tier == 'quick' else '.' + tier) + ('.alt%d' % os.getpid() if os.environ.get('VERIF_REPO_PY') else '')
+        self.work = os.path.join(ROOT, '.work', tag)
         shutil.rmtree(self.work, True)
         os.makedirs(self.work, exist_ok=True)
         os.environ['VERIF_WORK'] = self.work
